@@ -13,8 +13,8 @@ const (
 )
 
 func c08Table() []GuardReq {
-	sce := "call (*consensus.MidState).siacoinElement(%MS%, {consensus.V1TransactionSupplement}, %T1%.SiacoinInputs[*].ParentID)#0"
-	fceRev := "call (*consensus.MidState).fileContractElement(%MS%, {consensus.V1TransactionSupplement}, %T1%.FileContractRevisions[*].ParentID)#0"
+	sce := "call (consensus.MidState).siacoinElement(%MS%, {consensus.V1TransactionSupplement}, %T1%.SiacoinInputs[*].ParentID)#0"
+	fceRev := "call (consensus.MidState).fileContractElement(%MS%, {consensus.V1TransactionSupplement}, %T1%.FileContractRevisions[*].ParentID)#0"
 	res := "%T2%.FileContractResolutions[*]"
 	okSP := "ok:" + res + ".Resolution.(types.V2StorageProof) is true"
 	okExp := "ok:" + res + ".Resolution.(types.V2FileContractExpiration) is true"
@@ -32,7 +32,7 @@ func c08Table() []GuardReq {
 		req("v1-revision-window-start", VT, "%T1%.FileContractRevisions[*].FileContract.WindowStart", opLT, "%CH%", "a v1 revision's window must not start in the past"),
 		req("v1-revision-window-order", VT, "%T1%.FileContractRevisions[*].FileContract.WindowEnd", opLE, "%T1%.FileContractRevisions[*].FileContract.WindowStart", "v1 revision window order"),
 		req("v1-revision-parent-window", VT, fceRev+".FileContract.WindowStart", opLT, "%CH%", "a v1 contract cannot be revised once its window has opened"),
-		req("v1-proof-window-id", VT, "call (*consensus.MidState).storageProofWindowID(%MS%, {consensus.V1TransactionSupplement}, %T1%.StorageProofs[*].ParentID)#1", opF, "", "a v1 contract cannot be proven before the window-start block exists"),
+		req("v1-proof-window-id", VT, "call (consensus.MidState).storageProofWindowID(%MS%, {consensus.V1TransactionSupplement}, %T1%.StorageProofs[*].ParentID)#1", opF, "", "a v1 contract cannot be proven before the window-start block exists"),
 		req("v1-require-height", VT, "%CH%", opGE, "%NET%.HardforkV2.RequireHeight", "v1 transactions are invalid from the v2 require height"),
 		req("v2-allow-height", V2T, "%CH%", opLT, "%NET%.HardforkV2.AllowHeight", "v2 transactions are invalid before the v2 allow height"),
 		req("v2-contract-proof-height", V2T, "%T2%.FileContracts[*].ProofHeight", opLT, "%CH%", "v2 contract proof height must not have passed"),
@@ -44,7 +44,7 @@ func c08Table() []GuardReq {
 		req("v2-revision-expiration-order", V2T, "%T2%.FileContractRevisions[*].Revision.ExpirationHeight", opLE, "%T2%.FileContractRevisions[*].Revision.ProofHeight", "v2 revision expiration after proof height"),
 		req("v2-proof-not-before-proof-height", V2T, "%CH%", opLT, res+".Parent.V2FileContract.ProofHeight", "a v2 contract cannot be proven before the block at its proof height is an ancestor", okSP),
 		req("v2-proof-index-height", V2T, res+".Resolution.(types.V2StorageProof).ProofIndex.ChainIndex.Height", opNE, res+".Parent.V2FileContract.ProofHeight", "the proof index must be the block at the proof height", okSP),
-		req("v2-proof-index-ancestor", V2T, "call (*consensus.ElementAccumulator).containsChainIndex(%ST%.Elements, "+res+".Resolution.(types.V2StorageProof).ProofIndex)", opF, "", "the proof index must be an ancestor (accumulator membership)", okSP),
+		req("v2-proof-index-ancestor", V2T, "call (consensus.ElementAccumulator).containsChainIndex(%ST%.Elements, "+res+".Resolution.(types.V2StorageProof).ProofIndex)", opF, "", "the proof index must be an ancestor (accumulator membership)", okSP),
 		req("v2-expiration-height", V2T, "%CH%", opLE, res+".Parent.V2FileContract.ExpirationHeight", "a v2 contract cannot be expired at or before its expiration height", okExp),
 		// spend policies: evaluated with the parent height and the median timestamp
 		req("v2-policy-height-lock-siacoin", V2T, "%PH%", opLT, "%T2%.SiacoinInputs[*].SatisfiedPolicy.Policy.Type.(types.PolicyTypeAbove)", "height lock compares the parent block's height: accepted iff height >= N"),
